@@ -232,6 +232,72 @@ func sStructural(x *vc.Exec, lr *vc.LoadResult, frames []vc.FrameDecl, res *vc.P
 	}
 	sink.Structural("scheduler", "frame", "no-library-call-that-may-start-a-goroutine", []string{"C03", "C06"}, true, fmt.Sprintf("%d calls of goroutine-starting library functions in packages scheduler and cff", nSpawnCalls))
 	sink.Structural("scheduler", "frame", "go-statements-counted", []string{"C03", "C06"}, nGo == 4, fmt.Sprintf("%d go statements in package scheduler (spawner, loop, worker in the spawner, successor in worker$1)", nGo))
+	// Integers (C01, C03, C05, C19): the obligations of this pass treat Go
+	// integers as mathematical integers. That is the real semantics as long as
+	// every counter is a signed 64-bit machine word that would need 2^63 jobs to
+	// wrap; it is not for a narrower or an unsigned type (a dependency counter
+	// of type uint16 wraps to zero at 65536 dependencies and releases the job
+	// early; an unsigned counter makes 0-1 a huge number). So every integer
+	// field of the scheduler's structs and every integer value the scheduler's
+	// functions compute has to be of a signed 64-bit type.
+	mathInt := func(t types.Type) (bool, bool) {
+		b, ok := t.Underlying().(*types.Basic)
+		if !ok || b.Info()&types.IsInteger == 0 {
+			return false, true
+		}
+		switch b.Kind() {
+		case types.Int, types.Int64, types.UntypedInt, types.UntypedRune:
+			return true, true
+		}
+		return true, false
+	}
+	if sp := lr.Prog.ImportedPackage("go.uber.org/cff/scheduler"); sp != nil {
+		scope := sp.Pkg.Scope()
+		names := scope.Names()
+		for _, n := range names {
+			tn, ok := scope.Lookup(n).(*types.TypeName)
+			if !ok {
+				continue
+			}
+			st, ok := tn.Type().Underlying().(*types.Struct)
+			if !ok || n == "State" {
+				// State is the snapshot handed to the emitter: output only,
+				// nothing the scheduler computes with.
+				continue
+			}
+			for i := 0; i < st.NumFields(); i++ {
+				f := st.Field(i)
+				if isInt, good := mathInt(f.Type()); isInt {
+					sink.Structural("scheduler."+n+"."+f.Name(), "frame", "integer-field-is-a-signed-64-bit-word", []string{"C01", "C03", "C05", "C19"}, good, fmt.Sprintf("field %s.%s has type %s", n, f.Name(), f.Type()))
+				}
+			}
+		}
+	}
+	for _, fn := range fns {
+		var bad []string
+		nInt := 0
+		note := func(v ssa.Value, in ssa.Instruction) {
+			if v == nil || v.Type() == nil {
+				return
+			}
+			if isInt, good := mathInt(v.Type()); isInt {
+				nInt++
+				if !good {
+					bad = append(bad, fmt.Sprintf("%s of type %s at %s", v.Name(), v.Type(), pos(in)))
+				}
+			}
+		}
+		for _, b := range fn.Blocks {
+			for _, in := range b.Instrs {
+				if v, ok := in.(ssa.Value); ok {
+					note(v, in)
+				}
+			}
+		}
+		if nInt > 0 {
+			sink.Structural("scheduler."+fn.Name(), "frame", "integer-values-are-signed-64-bit-words", []string{"C01", "C03", "C05", "C19"}, len(bad) == 0, fmt.Sprintf("%d integer values; not int/int64: %s", nInt, strings.Join(bad, "; ")))
+		}
+	}
 	var keys []string
 	for k := range acc {
 		keys = append(keys, k)
